@@ -1330,6 +1330,10 @@ pub unsafe extern "C" fn SFileVerifyArchive(archive: HANDLE, flags: u32) -> bool
         };
         let file_list = file_list.unwrap_or_default();
 
+        // SFileVerifyFile takes the archive table lock itself: release it first
+        // (std's Mutex is not reentrant, holding it here deadlocks the calling thread)
+        drop(archives);
+
         // Verify each file individually
         for file_entry in file_list {
             // Skip special files and directories
